@@ -29,6 +29,7 @@ type expRef struct {
 // It will produce the result of applying the JMESPath expression associated
 // with the ASTNode to the input data "value".
 func (intr *treeInterpreter) Execute(node ASTNode, value interface{}) (interface{}, error) {
+	verifEnter(node, value)
 	switch node.nodeType {
 	case ASTComparator:
 		left, err := intr.Execute(node.children[0], value)
